@@ -277,18 +277,44 @@ func (configgen *ConfigGeneratorImpl) deltaFromServiceDiff(
 	}
 
 	for _, service := range allServices {
-		if _, ok := serviceClusters[service.Hostname.String()]; !ok {
+		clusters, ok := serviceClusters[service.Hostname.String()]
+		if !ok {
 			// this is a service we don't currently have and we should
 			services = append(services, service)
+			continue
+		}
+		// We have the service, but possibly not all of its ports: a Sidecar with port-bound egress listeners
+		// imports a service port by port, so the set of imported ports can grow without the service being new.
+		havePorts := sets.New[int]()
+		for cluster := range clusters {
+			_, _, _, port := model.ParseSubsetKey(cluster)
+			havePorts.Insert(port)
+		}
+		for _, port := range service.Ports {
+			if !havePorts.Contains(port.Port) {
+				services = append(services, service)
+				break
+			}
 		}
 	}
 
 	for h, clusters := range serviceClusters {
 		hostname := host.Name(h)
-		if _, ok := allServices[hostname]; !ok {
+		service, ok := allServices[hostname]
+		if !ok {
 			// a service we had is no longer present, we have to delete it
 			deletedClusters = append(deletedClusters, clusters.UnsortedList()...)
 			deletedClusters = append(deletedClusters, subsetClusters[h].UnsortedList()...)
+			continue
+		}
+		// The service is still present, but possibly with fewer imported ports: delete the clusters of the others.
+		for _, portClusters := range []sets.String{clusters, subsetClusters[h]} {
+			for cluster := range portClusters {
+				_, _, _, port := model.ParseSubsetKey(cluster)
+				if _, exists := service.Ports.GetByPort(port); !exists {
+					deletedClusters = append(deletedClusters, cluster)
+				}
+			}
 		}
 	}
 
